@@ -356,6 +356,50 @@ theorem zero_step_error (cap : Nat) (a l : Num) :
         simp only [Model.For.run, Model.For.prepfor, Val.toNum?, Model.For.unify, Model.For.isZero, hz' neg, if_true]
     · cases a <;> simp only [Spec.For.run, Val.toNum?, toFlt, hz' neg, if_true]
 
+/-- the zero test is on the VALUE: `isZero` (runtime/comp.go, `x.AsFloat() == 0`) holds exactly for the
+    integer 0 and for the two signed float zeros +0.0 and -0.0 — not for a bit pattern -/
+theorem isZero_iff (n : Num) :
+    Model.For.isZero n = true ↔ (n = .int 0#64 ∨ ∃ neg, n = .flt (.fin neg 0)) := by
+  cases n with
+  | int x =>
+    simp only [Model.For.isZero, beq_iff_eq]
+    constructor
+    · intro h; exact Or.inl (by rw [h])
+    · intro h
+      rcases h with h | ⟨neg, h⟩
+      · injection h
+      · cases h
+  | flt f =>
+    have hh : ((2 : Nat) ^ 2100 : Int) ≠ 0 := by
+      have : (0 : Int) < ((2 : Nat) ^ 2100 : Int) := Int.natCast_pos.mpr (Nat.two_pow_pos 2100)
+      omega
+    cases f with
+    | nan => simp [Model.For.isZero, F64.isZero, F64.beq, F64.isNaN]
+    | inf s =>
+      have hk : (F64.inf s).key ≠ 0 := by
+        cases s
+        · show ((2 ^ 2100 : Nat) : Int) ≠ 0; exact hh
+        · show -((2 ^ 2100 : Nat) : Int) ≠ 0; omega
+      have hz : F64.isZero (.inf s) = false := by
+        show (!(F64.inf s).isNaN && !F64.zero.isNaN && decide ((F64.inf s).key = F64.zero.key)) = false
+        have : F64.zero.key = 0 := rfl
+        rw [this]
+        simp [hk, F64.isNaN]
+      simp [Model.For.isZero, hz]
+    | fin neg m =>
+      cases neg <;>
+        simp [Model.For.isZero, F64.isZero, F64.beq, F64.isNaN, F64.key, F64.zero]
+
+/-- in particular a step of -0.0 (however it is spelled: `-0.0`, `0*-1.0`, `-1/math.huge`, the string
+    '-0.0') is the error "'for' step is zero", exactly like +0.0 and 0, for the code and for the manual -/
+theorem negative_zero_step_error (cap : Nat) (a l : Num) :
+    Model.For.run cap (.num a) (.num l) (.num (.flt (.fin true 0))) = .error ∧
+    Spec.For.run false cap (.num a) (.num l) (.num (.flt (.fin true 0))) = .error ∧
+    Model.For.run cap (.num a) (.num l) (.str (some (.flt (.fin true 0)))) = .error ∧
+    Spec.For.run false cap (.num a) (.num l) (.str (some (.flt (.fin true 0)))) = .error := by
+  have h := (zero_step_error cap a l).2.2 true
+  exact ⟨h.1, h.2, h.1, h.2⟩
+
 /-- a control value that is not a number (and not a string denoting one) is an error -/
 theorem non_number_error (cap : Nat) (a l d : Val)
     (h : a.toNum? = none ∨ l.toNum? = none ∨ d.toNum? = none) :
